@@ -748,3 +748,12 @@ Example stop_full_after_raise :
   | None => False
   end.
 Proof. vm_compute. auto. Qed.
+
+(* a reachable state of the current tree in which stop() is joining while a worker cannot exit *)
+Example stop_terminates_workers_hyps :
+  exists s, run current dead_lock_schedule (init 2) = Some s /\ stopping s /\ stop_rank s = 1%nat /\
+    exists s', run current [EJoinTimeout] s = Some s' /\ stop_steps [EJoinTimeout] = 1%nat /\ stop_over s'.
+Proof.
+  eexists. split; [vm_compute; reflexivity|]. split; [right; reflexivity|]. split; [reflexivity|].
+  eexists. split; [vm_compute; reflexivity|]. split; [reflexivity|left; reflexivity].
+Qed.
